@@ -47,6 +47,7 @@ struct request {
 	int delivered;     /* handler invocations with a message */
 	int finalised;     /* handler invocations without message */
 	int wrong;
+	int fail;          /* handler answers the reply with an error */
 };
 static struct request reqs[MAXREQ];
 static int nreq;
@@ -102,6 +103,7 @@ static int whnd(void *arg, const MPT_STRUCT(message) *msg)
 	}
 	VF_CHECK(q->answered, "model:sync:reply-before-answer", "%s: handler of request #%d invoked although the peer has not answered it", cur, q->serial);
 	VF_CHECK(q->delivered == 1, "model:sync:reply-delivered-twice", "%s: handler of request #%d invoked %d times", cur, q->serial, q->delivered);
+	if (q->fail) { vf_count("callback:reply-handler-error", 1); return MPT_ERROR(BadValue); }
 	return 0;
 }
 
@@ -173,7 +175,48 @@ static void peer_answer(int fd, struct request *q)
 		o += (size_t) w;
 	}
 	q->answered = 1;
+	vf_log("   peer: reply for request #%d (id %#" PRIxPTR ")%s", q->serial, q->id, q->delivered ? " [repeated]" : "");
 	vf_count("peer:replies-sent", 1);
+}
+
+/* every still waiting request keeps its own table entry (id, handler, argument); answered ones have none */
+static int slot_of(const MPT_STRUCT(array) *wait, const struct request *q)
+{
+	if (wait->_buf) {
+		MPT_STRUCT(command) *c = (void *) (wait->_buf + 1);
+		size_t cnt = wait->_buf->_used / sizeof(*c);
+		for (size_t i = 0; i < cnt; i++) if (c[i].cmd && c[i].arg == q) return (int) i;
+	}
+	return -1;
+}
+static void check_wait(const MPT_STRUCT(array) *wait, const char *when)
+{
+	int live = 0;
+	for (int j = 0; j < nreq; j++) {
+		struct request *q = &reqs[j];
+		int pos = slot_of(wait, q);
+		if (q->delivered) {
+			VF_CHECK(pos < 0, "model:sync:handler-still-registered", "%s: request #%d got its reply but its handler is still registered (slot %d)", when, q->serial, pos);
+			continue;
+		}
+		live++;
+		vf_count("monitor:waiting-entry-compared", 1);
+		VF_CHECK(pos >= 0, "model:sync:waiting-entry-lost", "%s: request #%d (id %#" PRIxPTR ") is not answered yet but has no entry in the wait table", when, q->serial, q->id);
+		{
+			MPT_STRUCT(command) *c = ((MPT_STRUCT(command) *) (wait->_buf + 1)) + pos, *f;
+			VF_CHECK(c->id == q->id && c->cmd == (int (*)(void *, void *)) whnd, "model:sync:waiting-entry-changed",
+			         "%s: the entry of waiting request #%d now carries id %#" PRIxPTR ", the request was sent with id %#" PRIxPTR " (a reply to it can no longer reach it)",
+			         when, q->serial, c->id, q->id);
+			f = mpt_command_get(wait, q->id);
+			VF_CHECK(f == c, "model:sync:waiting-entry-changed", "%s: id %#" PRIxPTR " of waiting request #%d resolves to another entry", when, q->id, q->serial);
+		}
+	}
+	if (wait->_buf) {
+		MPT_STRUCT(command) *c = (void *) (wait->_buf + 1);
+		size_t cnt = wait->_buf->_used / sizeof(*c), act = 0;
+		for (size_t i = 0; i < cnt; i++) act += c[i].cmd != 0;
+		VF_CHECK((int) act == live, "model:sync:handler-still-registered", "%s: %zu active entries in the wait table, %d requests are waiting", when, act, live);
+	}
 }
 
 void vf_case(uint64_t idx, vf_rng *r)
@@ -182,8 +225,8 @@ void vf_case(uint64_t idx, vf_rng *r)
 	MPT_STRUCT(stream) srm = MPT_STREAM_INIT;
 	MPT_STRUCT(array) wait = MPT_ARRAY_INIT;
 	MPT_STRUCT(socket) sock;
-	int sv[2], rounds = vf_range(r, 1, 5), maxround = 0, reused = 0, outoforder = 0;
-	char desc[400];
+	int sv[2], rounds = vf_range(r, 1, 6), maxround = 0, reused = 0, outoforder = 0, partial = 0, errors = 0, moved_any = 0, dups = 0;
+	char desc[500];
 	size_t dl;
 	struct sigaction sa;
 
@@ -205,9 +248,11 @@ void vf_case(uint64_t idx, vf_rng *r)
 	vf_fp_u64(idlen);
 	dl = (size_t) snprintf(desc, sizeof(desc), "idlen=%zu:", idlen);
 
-	for (int rd = 0; rd < rounds && nreq < MAXREQ - 8; rd++) {
-		int n = vf_range(r, 1, 6), first = nreq, got, ret;
-		struct request *seen[8], *order[8];
+	for (int rd = 0; rd <= rounds && nreq < MAXREQ - 8; rd++) {
+		int last = rd == rounds;      /* final round: everything still pending is answered */
+		int n = last ? 0 : vf_range(r, 1, 6), first = nreq, got, ret = 0, np = 0, na = 0, all;
+		struct request *seen[8], *pend[MAXREQ], *ans[MAXREQ];
+		int before[MAXREQ];
 		cur = "send";
 		for (int k = 0; k < n; k++) {
 			struct request *q = &reqs[nreq];
@@ -222,8 +267,11 @@ void vf_case(uint64_t idx, vf_rng *r)
 			c = mpt_command_reserve(&wait, idlen);
 			VF_CHECK(c != 0, "model:sync:reserve-refused", "mpt_command_reserve(width %zu) refused with %d requests outstanding", idlen, k);
 			q->id = c->id;
-			for (int j = first; j < nreq; j++) VF_CHECK(reqs[j].id != q->id, "model:reserve:duplicate-id", "id %#" PRIxPTR " reserved for two outstanding requests", q->id);
-			for (int j = 0; j < first; j++) if (reqs[j].id == q->id) reused = 1;
+			for (int j = 0; j < nreq; j++) {
+				if (reqs[j].id != q->id) continue;
+				VF_CHECK(reqs[j].delivered, "model:reserve:duplicate-id", "id %#" PRIxPTR " reserved for request #%d while request #%d still waits under it", q->id, q->serial, j);
+				reused = 1;
+			}
 			c->cmd = (int (*)(void *, void *)) whnd;
 			c->arg = q;
 			nreq++;
@@ -238,67 +286,100 @@ void vf_case(uint64_t idx, vf_rng *r)
 			vf_fp_u64(q->id); vf_fp(payload, pl);
 			vf_log("request #%d id %#" PRIxPTR " payload %zu bytes", q->serial, q->id, pl);
 		}
+		check_wait(&wait, "after registering");
 		vf_at("mpt_stream_flush");
 		for (int t = 0; t < 8 && mpt_stream_flush(&srm) > 0; t++) { }
 		got = peer_take_requests(sv[1], seen, n);
 		if (got != n) vf_inconclusive("peer received %d of %d requests", got, n);
-		/* the peer answers every outstanding request, in a PRNG order */
-		for (int k = 0; k < n; k++) order[k] = seen[k];
-		if (vf_chance(r, 2, 3)) {
-			for (int k = n - 1; k > 0; k--) { int j = (int) vf_below(r, (uint32_t) k + 1); struct request *t = order[k]; order[k] = order[j]; order[j] = t; }
+		(void) first;
+		/* pending requests in registration order; the peer answers all of them or a part */
+		for (int j = 0; j < nreq; j++) if (!reqs[j].delivered) pend[np++] = &reqs[j];
+		if (!np) continue;
+		all = last || vf_chance(r, 2, 5);
+		if (all) { for (int k = 0; k < np; k++) ans[na++] = pend[k]; }
+		else if (vf_chance(r, 1, 2)) {
+			/* the oldest ones first: holes in front of the entries that keep waiting */
+			int k = (np + 1) / 2 + (int) vf_below(r, (uint32_t) (np - (np + 1) / 2) + 1);
+			if (k >= np) k = np - 1;
+			for (int j = 0; j < k; j++) ans[na++] = pend[j];
+		} else {
+			for (int k = 0; k < np; k++) if (vf_chance(r, 1, 2)) ans[na++] = pend[k];
 		}
-		for (int k = 0; k < n; k++) { if (order[k] != seen[k]) outoforder = 1; peer_answer(sv[1], order[k]); vf_fp_u64((uint64_t) order[k]->serial); }
-		if (n > maxround) maxround = n;
-
-		cur = "mpt_stream_sync";
-		vf_at("mpt_stream_sync");
-		vf_count("mpt_stream_sync", 1);
-		if (n >= 2) vf_count("sync:two-or-more-pending", 1);
-		guard(1);
-		ret = mpt_stream_sync(&srm, idlen, &wait, -1);
-		guard(0);
-		vf_log("stream_sync(%d pending, all answered%s) = %d", n, outoforder ? ", out of order" : "", ret);
-		if (dl + 24 < sizeof(desc)) dl += (size_t) snprintf(desc + dl, sizeof(desc) - dl, " round(%d%s)=%d", n, outoforder ? ",ooo" : "", ret);
-		/* a second call is granted: the first may return as soon as data was loaded */
-		for (int extra = 0; extra < 2; extra++) {
-			int missing = 0;
-			for (int j = first; j < nreq; j++) missing += reqs[j].delivered == 0;
-			if (!missing) break;
-			vf_count("sync:extra-call", 1);
-			guard(1);
-			ret = mpt_stream_sync(&srm, idlen, &wait, -1);
-			guard(0);
-			vf_log("stream_sync again = %d", ret);
+		if (na < np) { partial = 1; vf_count("round:partial-answers", 1); }
+		if (na > 1 && vf_chance(r, 1, 2)) {
+			for (int k = na - 1; k > 0; k--) { int j = (int) vf_below(r, (uint32_t) k + 1); struct request *t = ans[k]; ans[k] = ans[j]; ans[j] = t; }
+			outoforder = 1;
 		}
-		for (int j = first; j < nreq; j++) {
-			vf_count("monitor:reply-delivery-accounted", 1);
-			VF_CHECK(reqs[j].delivered == 1, "model:sync:reply-not-delivered",
-			         "request #%d (id %#" PRIxPTR "): the peer's reply is in the stream but after mpt_stream_sync (3 calls) its handler was invoked %d times",
-			         reqs[j].serial, reqs[j].id, reqs[j].delivered);
-		}
-		VF_CHECK(ret >= 0, "model:sync:error", "mpt_stream_sync returned %d with all replies delivered", ret);
-		/* nothing may be left waiting */
-		{
-			int waiting = 0;
-			if (wait._buf) {
-				MPT_STRUCT(command) *c = (void *) (wait._buf + 1);
-				size_t cnt = wait._buf->_used / sizeof(*c);
-				for (size_t i = 0; i < cnt; i++) waiting += c[i].cmd != 0;
+		/* one of the replies is refused by its handler */
+		if (na && !last && vf_chance(r, 1, 2)) { struct request *f = vf_chance(r, 1, 2) ? ans[na - 1] : ans[vf_below(r, (uint32_t) na)]; f->fail = 1; errors++; vf_count("round:handler-error-planned", 1); }
+		/* repeated reply for an id that was answered before and is not in use now */
+		/* (only in front of real answers of this round: it is consumed before any id is reserved again) */
+		if (na && vf_chance(r, 1, 4)) {
+			for (int j = 0; j < nreq; j++) {
+				int inuse = 0;
+				if (!reqs[j].delivered) continue;
+				for (int k = 0; k < np; k++) if (pend[k]->id == reqs[j].id) inuse = 1;
+				if (inuse) continue;
+				peer_answer(sv[1], &reqs[j]);
+				vf_count("peer:repeated-replies", 1);
+				vf_fp_u64(0xd00 + (uint64_t) j);
+				dups++;
+				break;
 			}
-			VF_CHECK(!waiting, "model:sync:handler-still-registered", "%d reply handler(s) still registered after their replies were delivered", waiting);
 		}
+		for (int k = 0; k < na; k++) { peer_answer(sv[1], ans[k]); vf_fp_u64((uint64_t) ans[k]->serial); }
+		if (np > maxround) maxround = np;
+		for (int k = 0; k < np; k++) before[k] = slot_of(&wait, pend[k]);
+
+		/* sync until every reply that was sent has been handed over */
+		for (int call = 0; call < na + 3; call++) {
+			int missing = 0, to = (na == np) ? -1 : 0;
+			for (int k = 0; k < na; k++) missing += ans[k]->delivered == 0;
+			if (!missing) break;
+			cur = "mpt_stream_sync";
+			vf_at("mpt_stream_sync");
+			vf_count("mpt_stream_sync", 1);
+			vf_count(to < 0 ? "mpt_stream_sync(blocking)" : "mpt_stream_sync(timeout 0)", 1);
+			if (np >= 2) vf_count("sync:two-or-more-pending", 1);
+			guard(1);
+			ret = mpt_stream_sync(&srm, idlen, &wait, to);
+			guard(0);
+			vf_log("stream_sync(%d pending, %d answered, timeout %d) = %d", np, na, to, ret);
+			check_wait(&wait, "after mpt_stream_sync");
+			/* did the final compaction move a waiting entry? */
+			for (int k = 0; k < np; k++) {
+				int now;
+				if (pend[k]->delivered) continue;
+				now = slot_of(&wait, pend[k]);
+				if (before[k] >= 0 && now >= 0 && now < before[k]) { moved_any = 1; vf_count("sync:waiting-entry-moved-by-compaction", 1); }
+				before[k] = now;
+			}
+		}
+		for (int k = 0; k < na; k++) {
+			vf_count("monitor:reply-delivery-accounted", 1);
+			VF_CHECK(ans[k]->delivered == 1, "model:sync:reply-not-delivered",
+			         "request #%d (id %#" PRIxPTR "): the peer's reply is in the stream but after %d mpt_stream_sync calls its handler was invoked %d times",
+			         ans[k]->serial, ans[k]->id, na + 3, ans[k]->delivered);
+		}
+		for (int k = 0; k < np; k++) if (!pend[k]->answered) VF_CHECK(!pend[k]->delivered, "model:sync:reply-before-answer", "request #%d got a reply the peer never sent", pend[k]->serial);
+		if (na == np && !errors) VF_CHECK(ret >= 0, "model:sync:error", "mpt_stream_sync returned %d with all replies delivered", ret);
+		if (dl + 24 < sizeof(desc)) dl += (size_t) snprintf(desc + dl, sizeof(desc) - dl, " round(%d new,%d/%d answered)=%d", n, na, np, ret);
 	}
+	for (int j = 0; j < nreq; j++) VF_CHECK(reqs[j].delivered == 1, "model:sync:reply-not-delivered", "request #%d: %d deliveries at the end", j, reqs[j].delivered);
 	cur = "close";
 	vf_at("mpt_stream_close");
 	mpt_stream_close(&srm);
 	close(sv[1]);
 	mpt_command_clear(&wait);
 	mpt_array_clone(&wait, 0);
-	for (int j = 0; j < nreq; j++) VF_CHECK(reqs[j].delivered == 1, "model:sync:reply-delivered-twice", "request #%d: %d deliveries", j, reqs[j].delivered);
 	if (reused) vf_count("history:reply-id-reused", 1);
 	if (outoforder) vf_count("history:answered-out-of-order", 1);
+	if (partial) vf_count("history:with-partial-round", 1);
+	if (errors) vf_count("history:with-handler-error", 1);
+	if (moved_any) vf_count("history:compaction-moved-waiting-entry", 1);
+	if (dups) vf_count("history:with-repeated-reply", 1);
 	if (maxround >= 2) vf_nontrivial();
-	vf_sample("%s  => %d requests in %d rounds%s%s", desc, nreq, rounds, outoforder ? ", answered out of order" : "", reused ? ", ids reused" : "");
+	vf_sample("%s  => %d requests%s%s%s%s", desc, nreq, outoforder ? ", out of order" : "", reused ? ", ids reused" : "", errors ? ", handler errors" : "", moved_any ? ", compaction moved waiting entries" : "");
 }
 
 uint64_t vf_cases(void) { return vf_thorough ? 200000 : 20000; }
